@@ -26,12 +26,14 @@ if [ "$id" = "C18" ] && [ "$mode" != "replay" ]; then
   if ! (cd "$here/mc" && go build $mf -race -tags "$tags" -overlay "$ovl/overlay.json" -o "$rbin" . ) 2> "$bin.err"; then
     echo "HARNESS-ERROR: -race build failed" >&2; cat "$bin.err" >&2; rm -f "$bin.err" "$rbin"; exit 2
   fi
-  GORACE="halt_on_error=0 exitcode=66" timeout 600 "$rbin" racepass > "$ovl/race.log" 2>&1; rrc=$?
+  GORACE="halt_on_error=0 exitcode=66" timeout 1500 "$rbin" racepass > "$ovl/race.log" 2>&1; rrc=$?
   rm -f "$rbin" "$bin.err"
   races=$(grep -c 'WARNING: DATA RACE' "$ovl/race.log")
   python3 - "$ovl/race.json" "$races" "$rrc" <<'PY'
 import json,sys
-json.dump({"race_pass":{"build":"-race -tags 'verif decimal_pure_go'","scenarios":16,"rounds":30,"gomaxprocs":[2,16],"data_races_reported":int(sys.argv[2]),"exit":int(sys.argv[3])}},open(sys.argv[1],"w"))
+import re
+m=re.search(r"racepass: completed (\d+) scenarios x (\d+) rounds", open(sys.argv[1].replace("race.json","race.log")).read())
+json.dump({"race_pass":{"build":"-race -tags 'verif decimal_pure_go'","scenarios":int(m.group(1)) if m else 0,"rounds":int(m.group(2)) if m else 0,"gomaxprocs":[2,16],"data_races_reported":int(sys.argv[2]),"exit":int(sys.argv[3])}},open(sys.argv[1],"w"))
 PY
   export VERIF_EXTRA_EVIDENCE="$ovl/race.json"
   if [ "$races" -gt 0 ]; then
@@ -39,7 +41,11 @@ PY
     echo "VIOLATION property=C18 replay=$here/replays/C18-race.log"
     echo "  the race detector reported $races data race(s) in the free-running pass:"; grep -A12 'WARNING: DATA RACE' "$ovl/race.log" | head -30
     racefail=1
-  elif [ $rrc -eq 3 ] || [ $rrc -eq 124 ]; then
+  elif [ $rrc -eq 124 ]; then
+    # the whole pass ran out of its (generous) time limit without any scenario hanging (a hang is detected per
+    # scenario by the pass itself, exit 3): a slow or busy machine, not a verdict about the code. Supporting pass only.
+    echo "NOTE: free-running race pass did not complete within its time limit; no race and no hang observed so far (inconclusive, not counted)"
+  elif [ $rrc -eq 3 ]; then
     mkdir -p "$here/replays"; cp "$ovl/race.log" "$here/replays/C18-race.log"
     echo "VIOLATION property=C18 replay=$here/replays/C18-race.log"
     echo "  the free-running concurrent pass did not terminate (exit $rrc): $(grep NON-TERMINATION "$ovl/race.log" | head -1)"
